@@ -25,7 +25,7 @@ def K(n):
 
 
 ALLOWED_CONST = {("const", 0), ("const", 0.0), K("FLOAT_MAX"), ("neg", K("FLOAT_MAX")),
-                 ("bin", "*", ("const", -1), K("FLOAT_MAX"))}
+                 ("bin", "*", ("const", -1), K("FLOAT_MAX")), ("bin", "*", K("FLOAT_MAX"), ("const", -1))}
 
 
 class Flow:
